@@ -76,32 +76,6 @@ theorem from_u32 (n : U32) (h : n.inRange = true) : ExactInt (convert.impl_From_
 
 /-! ## 2. `From<i64 | u64 | i128 | u128>` -/
 
-/-- what the exact wide conversion delivers: the literal words `(RN(n), n - RN(n))`, exact value `n`,
-both notions of validity -/
-structure ExactBig (t : TwoFloat) (z : Int) : Prop where
-  words : t = ⟨F64.ofInt z, F64.ofInt (z - rnI z)⟩
-  V : t.V = z * U
-  valid : t.Valid
-  is_valid : TwoFloat.is_valid t = true
-  wf : t.WF
-
-/-- what the general wide conversion delivers: a valid pair whose value `w` is within `2^-106 |n|` of `n` -/
-structure ApproxBig (t : TwoFloat) (z : Int) : Prop where
-  valid : t.Valid
-  is_valid : TwoFloat.is_valid t = true
-  wf : t.WF
-  approx : ∃ w : Int, t.V = w * U ∧ 2 ^ 106 * |z - w| ≤ |z|
-
-theorem exactBig_of {s : Bool} {b : Nat} (hK : 54 ≤ IntN.K s b) (hK' : IntN.K s b ≤ 128) (v : IntN s b)
-    (hv : v.inRange = true) (hr : Rep (v.v - rnI v.v).natAbs) : ExactBig (fromBig v) v.v := by
-  obtain ⟨h1, h2, h3, h4⟩ := fromBig_exact hK hK' v hv hr
-  exact ⟨h1, h2, h3, (F64.NoOverlap.is_valid_iff _ h4).2 h3, h4⟩
-
-theorem approxBig_of {s : Bool} {b : Nat} (hK : 54 ≤ IntN.K s b) (hK' : IntN.K s b ≤ 128) (v : IntN s b)
-    (hv : v.inRange = true) : ApproxBig (fromBig v) v.v := by
-  obtain ⟨h1, h2, h3⟩ := fromBig_approx fastTwoSumSpec hK hK' v hv
-  exact ⟨h1, (F64.NoOverlap.is_valid_iff _ h2).2 h1, h2, h3⟩
-
 /-- `TwoFloat::from(n: i64)` is exact and valid, for every `n` -/
 theorem from_i64 (n : I64) (h : n.inRange = true) : ExactBig (convert.impl_From_i64_for_TwoFloat.from n) n.v :=
   exactBig_of (by decide) (by decide) n h (rep_err_of_K_le (by decide) h)
@@ -123,17 +97,17 @@ theorem from_u128_exact (n : U128) (h : n.inRange = true) (h106 : SigBits106 n.v
 /-- `TwoFloat::from(n: i128)` is valid and within `2^-106 |n|` of `n`, for every `n` -/
 theorem from_i128_approx (n : I128) (h : n.inRange = true) :
     ApproxBig (convert.impl_From_i128_for_TwoFloat.from n) n.v :=
-  approxBig_of (by decide) (by decide) n h
+  approxBig_of fastTwoSumSpec (by decide) (by decide) n h
 
 /-- `TwoFloat::from(n: u128)` is valid and within `2^-106 |n|` of `n`, for every `n` -/
 theorem from_u128_approx (n : U128) (h : n.inRange = true) :
     ApproxBig (convert.impl_From_u128_for_TwoFloat.from n) n.v :=
-  approxBig_of (by decide) (by decide) n h
+  approxBig_of fastTwoSumSpec (by decide) (by decide) n h
 
 /-- the same bound also holds (trivially sharper) for the 64-bit types -/
 theorem from_i64_approx (n : I64) (h : n.inRange = true) :
     ApproxBig (convert.impl_From_i64_for_TwoFloat.from n) n.v :=
-  approxBig_of (by decide) (by decide) n h
+  approxBig_of fastTwoSumSpec (by decide) (by decide) n h
 
 /-! ### panic freedom: no intermediate integer operation of the wide `From` impls overflows -/
 
@@ -149,11 +123,6 @@ theorem from_u128_pf (n : U128) (h : n.inRange = true) : convert.impl_From_u128_
 /-! ## 3. `TryFrom<TwoFloat>` for the small integer types
 
 `Int.tdiv x.V U` is the truncation toward zero of the exact value `hi + lo` to an integer. -/
-
-/-- the specified result: `Ok(t)` with `t = trunc(hi + lo)` iff `t` lies in the range of the type -/
-def tryFromSpec (s : Bool) (b : Nat) (x : TwoFloat) : RResult (IntN s b) :=
-  if IntN.fits s b (Int.tdiv x.V U) = true then Except.ok ⟨Int.tdiv x.V U⟩
-  else Except.error TwoFloatError.ConversionError
 
 theorem try_from_i8 (x : TwoFloat) (hx : x.Valid) (hw : x.WF) :
     convert.impl_TryFrom_TwoFloat_for_i8.try_from x = tryFromSpec true 8 x :=
@@ -261,6 +230,40 @@ theorem round_trip_u128 (n : U128) (h : n.inRange = true) (h106 : SigBits106 n.v
   tryFromBig_fromBig truncSpec (by decide) (by decide) upperB_u128.1 upperB_u128.2 n h
     (rep_err_of_sig106 h106)
 
+
+/-! ### the same as equivalences: `Ok(t)` iff `t = trunc(hi + lo)` and `t` in range; `Err` iff out of range -/
+
+theorem try_from_i8_ok_iff (x : TwoFloat) (hx : x.Valid) (hw : x.WF) (t : I8) :
+    convert.impl_TryFrom_TwoFloat_for_i8.try_from x = Except.ok t ↔ t.v = Int.tdiv x.V U ∧ t.inRange = true := by
+  rw [try_from_i8 x hx hw]; exact tryFromSpec_ok_iff t
+theorem try_from_i16_ok_iff (x : TwoFloat) (hx : x.Valid) (hw : x.WF) (t : I16) :
+    convert.impl_TryFrom_TwoFloat_for_i16.try_from x = Except.ok t ↔ t.v = Int.tdiv x.V U ∧ t.inRange = true := by
+  rw [try_from_i16 x hx hw]; exact tryFromSpec_ok_iff t
+theorem try_from_i32_ok_iff (x : TwoFloat) (hx : x.Valid) (hw : x.WF) (t : I32) :
+    convert.impl_TryFrom_TwoFloat_for_i32.try_from x = Except.ok t ↔ t.v = Int.tdiv x.V U ∧ t.inRange = true := by
+  rw [try_from_i32 x hx hw]; exact tryFromSpec_ok_iff t
+theorem try_from_u8_ok_iff (x : TwoFloat) (hx : x.Valid) (hw : x.WF) (t : U8) :
+    convert.impl_TryFrom_TwoFloat_for_u8.try_from x = Except.ok t ↔ t.v = Int.tdiv x.V U ∧ t.inRange = true := by
+  rw [try_from_u8 x hx hw]; exact tryFromSpec_ok_iff t
+theorem try_from_u16_ok_iff (x : TwoFloat) (hx : x.Valid) (hw : x.WF) (t : U16) :
+    convert.impl_TryFrom_TwoFloat_for_u16.try_from x = Except.ok t ↔ t.v = Int.tdiv x.V U ∧ t.inRange = true := by
+  rw [try_from_u16 x hx hw]; exact tryFromSpec_ok_iff t
+theorem try_from_u32_ok_iff (x : TwoFloat) (hx : x.Valid) (hw : x.WF) (t : U32) :
+    convert.impl_TryFrom_TwoFloat_for_u32.try_from x = Except.ok t ↔ t.v = Int.tdiv x.V U ∧ t.inRange = true := by
+  rw [try_from_u32 x hx hw]; exact tryFromSpec_ok_iff t
+theorem try_from_i64_ok_iff (x : TwoFloat) (hx : x.Valid) (hw : x.WF) (t : I64) :
+    convert.impl_TryFrom_TwoFloat_for_i64.try_from x = Except.ok t ↔ t.v = Int.tdiv x.V U ∧ t.inRange = true := by
+  rw [(try_from_i64 x hx hw).1]; exact tryFromSpec_ok_iff t
+theorem try_from_u64_ok_iff (x : TwoFloat) (hx : x.Valid) (hw : x.WF) (t : U64) :
+    convert.impl_TryFrom_TwoFloat_for_u64.try_from x = Except.ok t ↔ t.v = Int.tdiv x.V U ∧ t.inRange = true := by
+  rw [(try_from_u64 x hx hw).1]; exact tryFromSpec_ok_iff t
+theorem try_from_i128_ok_iff (x : TwoFloat) (hx : x.Valid) (hw : x.WF) (t : I128) :
+    convert.impl_TryFrom_TwoFloat_for_i128.try_from x = Except.ok t ↔ t.v = Int.tdiv x.V U ∧ t.inRange = true := by
+  rw [(try_from_i128 x hx hw).1]; exact tryFromSpec_ok_iff t
+theorem try_from_u128_ok_iff (x : TwoFloat) (hx : x.Valid) (hw : x.WF) (t : U128) :
+    convert.impl_TryFrom_TwoFloat_for_u128.try_from x = Except.ok t ↔ t.v = Int.tdiv x.V U ∧ t.inRange = true := by
+  rw [(try_from_u128 x hx hw).1]; exact tryFromSpec_ok_iff t
+
 /-! ## 5. floating-point conversions and the `num_traits` routes -/
 
 /-- `f64::from(x)` is the high word -/
@@ -299,6 +302,36 @@ theorem from_f32_exact (v : F32) (hf : v.v.is_finite = true) (hw : v.v.WF) :
 /-- `f64::from(TwoFloat::from(v)) == v` bit for bit -/
 theorem f64_round_trip (v : F64) :
     convert.impl_From_TwoFloat_for_f64.from (convert.impl_From_f64_for_TwoFloat.from v) = v := rfl
+
+/-- the `TryFrom<&TwoFloat>` impls are the same functions -/
+theorem try_from_ref_i8 (x : TwoFloat) : convert.impl_TryFrom_rTwoFloat_for_i8.try_from x =
+    convert.impl_TryFrom_TwoFloat_for_i8.try_from x := rfl
+theorem try_from_ref_i16 (x : TwoFloat) : convert.impl_TryFrom_rTwoFloat_for_i16.try_from x =
+    convert.impl_TryFrom_TwoFloat_for_i16.try_from x := rfl
+theorem try_from_ref_i32 (x : TwoFloat) : convert.impl_TryFrom_rTwoFloat_for_i32.try_from x =
+    convert.impl_TryFrom_TwoFloat_for_i32.try_from x := rfl
+theorem try_from_ref_i64 (x : TwoFloat) : convert.impl_TryFrom_rTwoFloat_for_i64.try_from x =
+    convert.impl_TryFrom_TwoFloat_for_i64.try_from x := rfl
+theorem try_from_ref_i128 (x : TwoFloat) : convert.impl_TryFrom_rTwoFloat_for_i128.try_from x =
+    convert.impl_TryFrom_TwoFloat_for_i128.try_from x := rfl
+theorem try_from_ref_u8 (x : TwoFloat) : convert.impl_TryFrom_rTwoFloat_for_u8.try_from x =
+    convert.impl_TryFrom_TwoFloat_for_u8.try_from x := rfl
+theorem try_from_ref_u16 (x : TwoFloat) : convert.impl_TryFrom_rTwoFloat_for_u16.try_from x =
+    convert.impl_TryFrom_TwoFloat_for_u16.try_from x := rfl
+theorem try_from_ref_u32 (x : TwoFloat) : convert.impl_TryFrom_rTwoFloat_for_u32.try_from x =
+    convert.impl_TryFrom_TwoFloat_for_u32.try_from x := rfl
+theorem try_from_ref_u64 (x : TwoFloat) : convert.impl_TryFrom_rTwoFloat_for_u64.try_from x =
+    convert.impl_TryFrom_TwoFloat_for_u64.try_from x := rfl
+theorem try_from_ref_u128 (x : TwoFloat) : convert.impl_TryFrom_rTwoFloat_for_u128.try_from x =
+    convert.impl_TryFrom_TwoFloat_for_u128.try_from x := rfl
+theorem try_from_ref_i64_pf (x : TwoFloat) : convert.impl_TryFrom_rTwoFloat_for_i64.try_from.pf x =
+    convert.impl_TryFrom_TwoFloat_for_i64.try_from.pf x := rfl
+theorem try_from_ref_i128_pf (x : TwoFloat) : convert.impl_TryFrom_rTwoFloat_for_i128.try_from.pf x =
+    convert.impl_TryFrom_TwoFloat_for_i128.try_from.pf x := rfl
+theorem try_from_ref_u64_pf (x : TwoFloat) : convert.impl_TryFrom_rTwoFloat_for_u64.try_from.pf x =
+    convert.impl_TryFrom_TwoFloat_for_u64.try_from.pf x := rfl
+theorem try_from_ref_u128_pf (x : TwoFloat) : convert.impl_TryFrom_rTwoFloat_for_u128.try_from.pf x =
+    convert.impl_TryFrom_TwoFloat_for_u128.try_from.pf x := rfl
 
 /-- the `ToPrimitive` / `FromPrimitive` impls are the same conversions -/
 theorem to_i8_eq (x : TwoFloat) : num_integration.impl_ToPrimitive_for_TwoFloat.to_i8 x =
@@ -347,6 +380,60 @@ theorem from_u64_eq' (n : U64) : num_integration.impl_FromPrimitive_for_TwoFloat
     some (convert.impl_From_u64_for_TwoFloat.from n) := rfl
 theorem from_u128_eq' (n : U128) : num_integration.impl_FromPrimitive_for_TwoFloat.from_u128 n =
     some (convert.impl_From_u128_for_TwoFloat.from n) := rfl
+
+/-! ## 6. the 8-bit types once more, by exhaustive kernel evaluation of the generated code
+
+Independent of the general theorems above: the model is *evaluated* on all 256 values of each type. -/
+
+set_option maxRecDepth 100000 in
+theorem i8_table : (List.range 256).all (fun k =>
+    TwoFloat.is_valid (convert.impl_From_i8_for_TwoFloat.from ⟨(k : Int) - 128⟩) &&
+    decide ((convert.impl_From_i8_for_TwoFloat.from ⟨(k : Int) - 128⟩).V = ((k : Int) - 128) * U) &&
+    decide (convert.impl_TryFrom_TwoFloat_for_i8.try_from
+      (convert.impl_From_i8_for_TwoFloat.from ⟨(k : Int) - 128⟩) = Except.ok ⟨(k : Int) - 128⟩)) = true := by
+  decide +kernel
+
+set_option maxRecDepth 100000 in
+theorem u8_table : (List.range 256).all (fun k =>
+    TwoFloat.is_valid (convert.impl_From_u8_for_TwoFloat.from ⟨(k : Int)⟩) &&
+    decide ((convert.impl_From_u8_for_TwoFloat.from ⟨(k : Int)⟩).V = (k : Int) * U) &&
+    decide (convert.impl_TryFrom_TwoFloat_for_u8.try_from
+      (convert.impl_From_u8_for_TwoFloat.from ⟨(k : Int)⟩) = Except.ok ⟨(k : Int)⟩)) = true := by
+  decide +kernel
+
+/-- every `i8`: valid, exact, round trip — from the table -/
+theorem i8_all (n : I8) (h : n.inRange = true) :
+    TwoFloat.is_valid (convert.impl_From_i8_for_TwoFloat.from n) = true ∧
+    (convert.impl_From_i8_for_TwoFloat.from n).V = n.v * U ∧
+    convert.impl_TryFrom_TwoFloat_for_i8.try_from (convert.impl_From_i8_for_TwoFloat.from n) = Except.ok n := by
+  obtain ⟨h1, h2⟩ := IntN.fits_iff.1 h
+  have e1 : IntN.minV true 8 = -128 := by decide
+  have e2 : IntN.maxV true 8 = 127 := by decide
+  rw [e1] at h1; rw [e2] at h2
+  have hk : (n.v + 128).toNat ∈ List.range 256 := List.mem_range.2 (by omega)
+  have := List.all_eq_true.1 i8_table _ hk
+  have e : (((n.v + 128).toNat : Nat) : Int) - 128 = n.v := by omega
+  rcases n with ⟨v⟩
+  simp only at e
+  rw [e] at this
+  simpa [and_assoc] using this
+
+/-- every `u8`: valid, exact, round trip — from the table -/
+theorem u8_all (n : U8) (h : n.inRange = true) :
+    TwoFloat.is_valid (convert.impl_From_u8_for_TwoFloat.from n) = true ∧
+    (convert.impl_From_u8_for_TwoFloat.from n).V = n.v * U ∧
+    convert.impl_TryFrom_TwoFloat_for_u8.try_from (convert.impl_From_u8_for_TwoFloat.from n) = Except.ok n := by
+  obtain ⟨h1, h2⟩ := IntN.fits_iff.1 h
+  have e1 : IntN.minV false 8 = 0 := by decide
+  have e2 : IntN.maxV false 8 = 255 := by decide
+  rw [e1] at h1; rw [e2] at h2
+  have hk : (n.v).toNat ∈ List.range 256 := List.mem_range.2 (by omega)
+  have := List.all_eq_true.1 u8_table _ hk
+  have e : (((n.v).toNat : Nat) : Int) = n.v := by omega
+  rcases n with ⟨v⟩
+  simp only at e
+  rw [e] at this
+  simpa [and_assoc] using this
 
 /-! ## non-vacuity: the hypotheses are satisfiable and the statements bite on concrete values -/
 
